@@ -532,6 +532,9 @@ func ruleBucketBound(r *core.Reporter) {
 	p := r.P
 	n := 0
 	var evict *ssa.Function = p.Func(rel(pkgRL), "(*BucketManager).evictLFU")
+	var evictHost *ssa.Function
+	var evictFrom ir.Pt
+	var evictUntil ssa.Instruction
 	for _, fn := range p.FuncsInPkg(rel(pkgRL)) {
 		allInstrs(fn, func(in ssa.Instruction) {
 			mu, ok := in.(*ssa.MapUpdate)
@@ -573,9 +576,38 @@ func ruleBucketBound(r *core.Reporter) {
 			start := ir.Pt{B: bound.If.Block().Succs[bound.EdgeWhen(true)], I: 0}
 			isEvict := func(x ssa.Instruction) bool {
 				c, isC := x.(*ssa.Call)
-				return isC && evict != nil && ir.CalleeOf(c.Common()) == evict
+				if isC && evict != nil && ir.CalleeOf(c.Common()) == evict {
+					return true
+				}
+				// evictLFU folded into this function: the scan ends in delete(buckets, key)
+				if evict == nil {
+					if cc := ir.AsCall(x); cc != nil && ir.CallName(cc) == "builtin.delete" && len(cc.Args) > 0 {
+						if _, f, okf := fieldOfLoad(cc.Args[0]); okf && f == "buckets" {
+							return true
+						}
+					}
+				}
+				return false
 			}
-			if ir.Reach([]ir.Pt{start}, ir.Opts{Stop: isEvict}).Reached[in] {
+			if evict == nil {
+				// remember where the folded eviction lives: the region between the size test and the insertion
+				evictHost, evictFrom, evictUntil = fn, start, in
+			}
+			// (folded form: the deletion is skipped only when the scan chose no key — an empty table)
+			noKey := func(b *ssa.BasicBlock, sidx int) bool {
+				if evict != nil {
+					return true
+				}
+				for _, ii := range ir.Ifs(fn) {
+					if ii.If.Block() == b && ii.Atom.V == nil && ii.Atom.Op == token.EQL {
+						if sv, okc := ir.ConstString(ii.Atom.Y); okc && sv == "" && sidx == ii.EdgeWhen(true) {
+							return false
+						}
+					}
+				}
+				return true
+			}
+			if ir.Reach([]ir.Pt{start}, ir.Opts{Stop: isEvict, EdgeOK: noKey}).Reached[in] {
 				r.Violated(key, p.InstrPos(in), "with the table full a bucket can be inserted without evicting one first")
 				return
 			}
@@ -583,6 +615,12 @@ func ruleBucketBound(r *core.Reporter) {
 		})
 	}
 	r.Floor("bucket insertions", n, 1)
+	inEvict := func(ssa.Instruction) bool { return true }
+	if evict == nil && evictHost != nil {
+		reg := ir.Reach([]ir.Pt{evictFrom}, ir.Opts{Stop: func(x ssa.Instruction) bool { return x == evictUntil }}).Reached
+		inEvict = func(in ssa.Instruction) bool { return reg[in] }
+		evict = evictHost
+	}
 	if evict == nil {
 		r.Undecided("evictLFU", "", "anchor not found")
 		return
@@ -591,7 +629,7 @@ func ruleBucketBound(r *core.Reporter) {
 	// delete guarded only by "a key was chosen"
 	var del ssa.Instruction
 	allInstrs(evict, func(in ssa.Instruction) {
-		if c := ir.AsCall(in); c != nil && ir.CallName(c) == "builtin.delete" {
+		if c := ir.AsCall(in); c != nil && ir.CallName(c) == "builtin.delete" && inEvict(in) {
 			del = in
 		}
 	})
@@ -602,7 +640,7 @@ func ruleBucketBound(r *core.Reporter) {
 	// the candidate update inside the range loop is conditional only on the usage comparison
 	var rng *ssa.Range
 	allInstrs(evict, func(in ssa.Instruction) {
-		if rg, ok := in.(*ssa.Range); ok {
+		if rg, ok := in.(*ssa.Range); ok && inEvict(in) {
 			if _, isMap := rg.X.Type().Underlying().(*types.Map); isMap {
 				rng = rg
 			}
@@ -614,6 +652,9 @@ func ruleBucketBound(r *core.Reporter) {
 	}
 	extra := ""
 	for _, ii := range ir.Ifs(evict) {
+		if !inEvict(ii.If) {
+			continue
+		}
 		a := ii.Atom
 		// loop-control test on next()'s ok
 		if a.V != nil {
